@@ -840,6 +840,16 @@ impl<'a> WriteTxn<'a> {
                 })?;
             }
 
+            // Edge tombstones are logged before edge creations: replay feeds the records
+            // into a memtable in log order, and a tombstone replayed after a creation of
+            // the same key would erase an edge that was deleted and re-created in this tx.
+            for edge in run.iter_tombstoned_edges() {
+                wal.append(&WalRecord::TombstoneEdge {
+                    src: edge.src,
+                    rel: edge.rel,
+                    dst: edge.dst,
+                })?;
+            }
             for edge in run.iter_edges() {
                 wal.append(&WalRecord::CreateEdge {
                     src: edge.src,
@@ -849,13 +859,6 @@ impl<'a> WriteTxn<'a> {
             }
             for node in run.iter_tombstoned_nodes() {
                 wal.append(&WalRecord::TombstoneNode { node })?;
-            }
-            for edge in run.iter_tombstoned_edges() {
-                wal.append(&WalRecord::TombstoneEdge {
-                    src: edge.src,
-                    rel: edge.rel,
-                    dst: edge.dst,
-                })?;
             }
 
             // Write property operations
